@@ -134,12 +134,28 @@ def try_nonzero_local(F, res, i, e):
     def has_pred(pred_fn):
         return any(pred_fn(t, v) for t, v, _ in preds)
 
+    from vlib import pow2
+    canon = [c for c in (pow2.below_pow2(t, v) for t, v, _ in preds) if c is not None]
+
     def lt_pow(h, k_fn, want):
-        # pred: Lt(h, Shl(one(), K)) == want  with K accepted by k_fn
-        return has_pred(lambda t, v: t[0] == 'bin' and t[1] == 'Lt' and t[2] == h and t[3][0] == 'bin' and t[3][1] == 'Shl' and one(t[3][2]) and k_fn(t[3][3]) and v == want)
+        # some dominating test says `(h < 2^E) == want` - in any spelling (`h < 1 << K`, `h >> K == 0`, ...) - with E accepted by k_fn
+        return any(x == h and holds == bool(want) and k_fn(E) for x, E, holds in canon)
 
     def bits_minus(k):
-        return lambda K: K[0] == 'bin' and K[1] == 'Sub' and K[2][0] == 'c' and K[2][1].endswith('BITS') and K[3] == k
+        # E == <some type's BITS> - k
+        ke = pow2.width_exp(k)
+
+        def ok(E):
+            if ke is None:
+                return False
+            d = pow2._exp_add(E, ke)
+            atoms = list(d[0].values())
+            return d[1] == 0 and len(atoms) == 1 and atoms[0][0] == 1 and atoms[0][1][0] == 'c' and atoms[0][1][1].endswith('BITS')
+        return ok
+
+    def equals(k):
+        ke = pow2.width_exp(k)
+        return lambda E: ke is not None and pow2.exp_cmp(E, ke) == 0
 
     # argument itself asserted > 1 / != 0
     if has_pred(lambda t, v: t[0] == 'bin' and t[1] == 'Lt' and sym.is_int(t[2]) and t[2][1] >= 0 and t[3] == x and v == 1):
@@ -160,11 +176,11 @@ def try_nonzero_local(F, res, i, e):
         if h in nz and lt_pow(h, bits_minus(k), 1):
             return '`%s` is a NonZero value below 1 << (BITS - %s): the left shift cannot truncate' % (sym.show(h)[:40], sym.show(k))
         # (h << (W - P)) with h < 1 << P
-        if h in nz and k[0] == 'bin' and k[1] == 'Sub' and lt_pow(h, lambda K: K == k[3], 1):
+        if h in nz and k[0] == 'bin' and k[1] == 'Sub' and lt_pow(h, equals(k[3]), 1):
             return '`%s` is a NonZero value below 1 << %s: shifting left by %s cannot truncate' % (sym.show(h)[:40], sym.show(k[3]), sym.show(k))
     if core[0] == 'bin' and core[1] == 'Shr':
         h, k = core[2], core[3]
-        if lt_pow(h, lambda K: K == k, 0):
+        if lt_pow(h, equals(k), 0):
             return '`%s` >= 1 << %s on this path: the right shift leaves a set bit' % (sym.show(h)[:40], sym.show(k))
     return None
 
@@ -269,7 +285,7 @@ def nonzero_getter(F, res, i, e):
     preds = res.preds[:rules.preds_before(res, i)]
     for t, v, _ in preds:
         isz = lambda z: z == sym.mk_int(0) or (z[0] == 'k' and z[1] == 'zero')
-        if t[0] == 'bin' and t[1] == 'Eq' and (isz(t[2]) or isz(t[3])) and v == 1:
+        if t[0] == 'bin' and ((t[1] == 'Eq' and v == 1) or (t[1] == 'Ne' and v == 0)) and (isz(t[2]) or isz(t[3])):
             o = t[3] if isz(t[2]) else t[2]
             if o[0] == 'call' and o[1] == 'core::num::NonZero::<T>::get':
                 return 'guarded by `NonZero::get(self) == 0`, impossible by the core type guarantee'
